@@ -30,9 +30,19 @@ TRUST = ["C01 statement oracle: lengths = sum round(d_i*SR) from the generator's
 
 def generate(rng, tier):
     n = 160 if tier == "quick" else 5000
-    for ci in range(n):
+    n_long = 5 if tier == "quick" else 40
+    for ci in range(n + n_long):
         malformed = rng.random() < 0.15
-        SR, segs = target_blueprint(rng, nseg=rng.randint(1, 8 if tier == "quick" else 14))
+        if ci >= n:
+            # long waveforms (> 2**16 samples, several segments): size-dependent fast paths must still concatenate exactly
+            malformed = False
+            while True:
+                SR, segs = target_blueprint(rng, nseg=rng.randint(3, 6), nmax=40000, waits=rng.random() < 0.3,
+                                            SR=rng.choice([1e9, 2.4e9, 1.2e9, 44100.0, 1e6, 1e4]))
+                if sum(s[4] for s in segs) > 70000:
+                    break
+        else:
+            SR, segs = target_blueprint(rng, nseg=rng.randint(1, 8 if tier == "quick" else 14))
         if malformed:
             i = rng.randrange(len(segs))
             if segs[i][0] != "waituntil":
